@@ -189,6 +189,31 @@ func (q *Query) buildGinst(rounds int) *ginstResult {
 				addHyp(c)
 			}
 			return
+		case "=>":
+			// (=> g (and A (forall x. B)))  ==  (=> g A) and (forall x. (=> g B)): hoist universals out of consequents
+			if len(t.list) == 3 {
+				cons := t.list[2]
+				if cons.head() == "and" {
+					for _, c := range cons.list[1:] {
+						addHyp(&sx_{list: []*sx_{t.list[0], t.list[1], c}})
+					}
+					return
+				}
+				if cons.head() == "forall" && len(cons.list) == 3 {
+					body := cons.list[2]
+					var pats []*sx_
+					if body.head() == "!" {
+						pats = body.list[2:]
+						body = body.list[1]
+					}
+					nb := &sx_{list: []*sx_{t.list[0], t.list[1], body}}
+					if len(pats) > 0 {
+						nb = &sx_{list: append([]*sx_{{atom: "!"}, nb}, pats...)}
+					}
+					addHyp(&sx_{list: []*sx_{cons.list[0], cons.list[1], nb}})
+					return
+				}
+			}
 		case "forall":
 			qh := &qhyp{done: map[string]bool{}}
 			for _, b := range t.list[1].list {
@@ -268,43 +293,7 @@ func (q *Query) buildGinst(rounds int) *ginstResult {
 	if len(quants) == 0 && nsk == 0 {
 		return nil
 	}
-	// auto-patterns for quantifiers without explicit ones
-	for _, qh := range quants {
-		if len(qh.pats) > 0 {
-			continue
-		}
-		vars := map[string]bool{}
-		for _, v := range qh.vars {
-			vars[v] = true
-		}
-		seen := map[string]bool{}
-		var walk func(t *sx_, underQ bool)
-		walk = func(t *sx_, underQ bool) {
-			if t.isAtom() {
-				return
-			}
-			h := t.head()
-			if h == "forall" || h == "exists" {
-				return
-			}
-			if (h == "select" || strings.HasPrefix(h, "pf$") || strings.HasPrefix(h, "sprintf$") || strings.HasPrefix(h, "uf$")) && sxContainsAll(t, vars) {
-				// prefer the smallest such terms: descend first
-				before := len(seen)
-				for _, c := range t.list[1:] {
-					walk(c, underQ)
-				}
-				if len(seen) == before && !seen[t.String()] {
-					seen[t.String()] = true
-					qh.pats = append(qh.pats, []*sx_{t})
-				}
-				return
-			}
-			for _, c := range t.list[1:] {
-				walk(c, underQ)
-			}
-		}
-		walk(qh.body, false)
-	}
+	autoPatterns(quants)
 	// definitions name = (store ...)
 	defs := map[string][]*sx_{}
 	var findDefs func(t *sx_)
@@ -382,6 +371,52 @@ func (q *Query) buildGinst(rounds int) *ginstResult {
 			}
 			return out
 		}
+		// parents[c] = terms that have c as a direct argument (variants of c give variants of the parent)
+		parents := map[string][]*sx_{}
+		regParents := func(t *sx_) {
+			if t.isAtom() {
+				return
+			}
+			for _, c := range t.list[1:] {
+				if !c.isAtom() {
+					parents[c.String()] = append(parents[c.String()], t)
+				}
+			}
+		}
+		for _, t := range work {
+			regParents(t)
+		}
+		addTerm := func(nt *sx_) {
+			if nt.isAtom() {
+				return
+			}
+			if _, ok := terms[nt.String()]; !ok {
+				terms[nt.String()] = nt
+				regParents(nt)
+				work = append(work, nt)
+			}
+		}
+		var propagate func(t, alt *sx_, depth int)
+		propagate = func(t, alt *sx_, depth int) {
+			if depth > 3 || len(terms) >= ginstMaxTerms {
+				return
+			}
+			ts := t.String()
+			for _, par := range parents[ts] {
+				np := &sx_{list: make([]*sx_, len(par.list))}
+				copy(np.list, par.list)
+				for i, c := range par.list {
+					if i > 0 && c.String() == ts {
+						np.list[i] = alt
+					}
+				}
+				if _, ok := terms[np.String()]; ok {
+					continue
+				}
+				addTerm(np)
+				propagate(par, np, depth+1)
+			}
+		}
 		for len(work) > 0 && len(terms) < ginstMaxTerms {
 			t := work[len(work)-1]
 			work = work[:len(work)-1]
@@ -394,8 +429,13 @@ func (q *Query) buildGinst(rounds int) *ginstResult {
 				}
 				nt := &sx_{list: []*sx_{t.list[0], st.list[1], t.list[2]}}
 				if _, ok := terms[nt.String()]; !ok {
-					terms[nt.String()] = nt
-					work = append(work, nt)
+					addTerm(nt)
+					propagate(t, nt, 0)
+				}
+				if st.list[2].String() == t.list[2].String() {
+					// the stored value stands for t
+					addTerm(st.list[3])
+					propagate(t, st.list[3], 0)
 				}
 			}
 		}
@@ -444,7 +484,12 @@ func (q *Query) buildGinst(rounds int) *ginstResult {
 						continue
 					}
 					qh.done[key] = true
-					ground = append(ground, sxSubst(qh.body, env))
+					nq := len(quants)
+					addHyp(sxSubst(qh.body, env))
+					if len(quants) > nq {
+						// nested universals of the instance became new quantified hypotheses: give them patterns too
+						autoPatterns(quants[nq:])
+					}
 					newInst++
 					total++
 					if total > ginstMaxInstances {
@@ -482,4 +527,44 @@ func itoa(i int) string {
 		i /= 10
 	}
 	return string(b)
+}
+
+// autoPatterns gives quantifiers without explicit patterns the smallest select / UF terms that mention all bound variables.
+func autoPatterns(quants []*qhyp) {
+	for _, qh := range quants {
+		if len(qh.pats) > 0 {
+			continue
+		}
+		vars := map[string]bool{}
+		for _, v := range qh.vars {
+			vars[v] = true
+		}
+		seen := map[string]bool{}
+		var walk func(t *sx_, underQ bool)
+		walk = func(t *sx_, underQ bool) {
+			if t.isAtom() {
+				return
+			}
+			h := t.head()
+			if h == "forall" || h == "exists" {
+				return
+			}
+			if (h == "select" || strings.HasPrefix(h, "pf$") || strings.HasPrefix(h, "sprintf$") || strings.HasPrefix(h, "uf$")) && sxContainsAll(t, vars) {
+				// prefer the smallest such terms: descend first
+				before := len(seen)
+				for _, c := range t.list[1:] {
+					walk(c, underQ)
+				}
+				if len(seen) == before && !seen[t.String()] {
+					seen[t.String()] = true
+					qh.pats = append(qh.pats, []*sx_{t})
+				}
+				return
+			}
+			for _, c := range t.list[1:] {
+				walk(c, underQ)
+			}
+		}
+		walk(qh.body, false)
+	}
 }
